@@ -5,6 +5,7 @@ package main
 
 import (
 	"fmt"
+	"regexp"
 	"go/token"
 	"go/types"
 	"strings"
@@ -211,6 +212,9 @@ func prefixOf(p, s *Term) *Term {
 	if p.Kind == KStr && s.Kind == KStr {
 		return BoolT(strings.HasPrefix(s.S, p.S))
 	}
+	if p.Kind == KStr && s.Kind == KApp && s.Op == "str.++" && len(s.Args) > 0 && s.Args[0].Kind == KStr && len(s.Args[0].S) >= len(p.S) {
+		return BoolT(strings.HasPrefix(s.Args[0].S, p.S))
+	}
 	if p.Kind == KStr && len(p.S) == 1 {
 		// one-character prefix: same shape as the code's s[0] test
 		return Eq(App("str.at", "String", s, IntT(0)), p)
@@ -343,7 +347,12 @@ func (x *Exec) regexpModel(st *State, re *RegexpV, method string, subject *Term,
 	id := mangle(fmt.Sprintf("re_%x", hashString(re.pat)))
 	switch {
 	case strings.HasSuffix(method, "MatchString"):
-		return App(id+"_match", "Bool", subject)
+		m := App(id+"_match", "Bool", subject)
+		if rx, err := regexp.Compile(re.pat); err == nil && !rx.MatchString("") {
+			// decided with the real regexp engine on the constant pattern: it does not match the empty string
+			st.assume(Implies(m, Cmp(">", StrLen(subject), IntT(0))))
+		}
+		return m
 	case strings.HasSuffix(method, "FindString"):
 		r := App(id+"_find", "String", subject)
 		if strings.HasPrefix(re.pat, "^") {
